@@ -240,11 +240,11 @@ Proof.
     assert (Hd : -1 <= ht vl - vh <= 1) by lia.
     destruct (rebalance_from_ok _ vl vh Hc2 E3 Hd) as [A1 A2].
     split; [exact A1|]. rewrite A2.
-    rewrite plug_app. cbn [plug fill]. rewrite inorder_plug. cbn [inorder].
+    rewrite plug_app. cbn [plug fill]. rewrite inorder_plug.
     assert (Hl_in : inorder (N ll lk lh lr) = inorder (plug vl c2) ++ [vk]).
     { rewrite <- E1. rewrite !inorder_plug. rewrite E2. cbn [inorder].
       rewrite !app_nil_r. rewrite <- !app_assoc. reflexivity. }
-    rewrite Hl_in. rewrite <- !app_assoc. reflexivity.
+    rewrite Hl_in. cbn [inorder]. rewrite <- !app_assoc. reflexivity.
   - (* victim = min of right subtree *)
     assert (Hdel : delete_at (N l k h (N rl rk rh rr)) c =
                    let '(vr, vk, c2) := split_min rl rk rh rr [] in
@@ -260,11 +260,11 @@ Proof.
     assert (Hd : -1 <= ht vr - vh <= 1) by lia.
     destruct (rebalance_from_ok _ vr vh Hc2 E3 Hd) as [A1 A2].
     split; [exact A1|]. rewrite A2.
-    rewrite plug_app. cbn [plug fill]. rewrite inorder_plug. cbn [inorder].
+    rewrite plug_app. cbn [plug fill]. rewrite inorder_plug.
     assert (Hr_in : inorder (N rl rk rh rr) = vk :: inorder (plug vr c2)).
     { rewrite <- E1. rewrite !inorder_plug. rewrite E2. cbn [inorder app].
       reflexivity. }
-    rewrite Hr_in. rewrite <- !app_assoc. reflexivity.
+    rewrite Hr_in. cbn [inorder]. rewrite <- !app_assoc. reflexivity.
 Qed.
 
 Lemma avl_delete_present :
